@@ -67,6 +67,8 @@ def conflicts(func, cross=True):
                 if isinstance(k, ast.Constant) and isinstance(k.value, str):
                     pairs.append((k.value, v))
         for nm, val in pairs:
+            if isinstance(val, ast.Constant) and isinstance(val.value, str):
+                continue  # a label stored as data (`leg_end = "lower"`), not an ingredient of a computation
             for vocab in (("both",) if cross else ("lu", "se")):
                 s = side(nm, vocab)
                 if not s:
@@ -109,6 +111,8 @@ def mixed(func, cross=True):
                 if isinstance(k, ast.Constant) and isinstance(k.value, str):
                     pairs.append((k.value, v))
         for nm, val in pairs:
+            if isinstance(val, ast.Constant) and isinstance(val.value, str):
+                continue  # a label stored as data (`leg_end = "lower"`), not an ingredient of a computation
             for vocab in (("both",) if cross else ("lu", "se")):
                 s = side(nm, vocab)
                 if not s:
